@@ -869,3 +869,59 @@ class MachineControllerInit:
                 and self_post._scp_data_length is None and self_post._window_size is None and self_post._root_chip is None
                 and self_post._width is None and self_post._height is None and self_post._nn_id == 0
                 and self_post.structs.ident == structs.ident)
+
+
+# ---- FPGA registers through a board's management controller -----------------------------------------------------------------------------
+def _bmp_send_all(E, obj, args, kwargs, st, node):
+    s = st.copy()
+    s.trace = ListV(s.trace.items + (("bmp_command",) + tuple(args) + (tuple(sorted(kwargs.items())),),))
+    return [(s, ObjV("SCPPacket", {"data": st.env["g_data"]}), None)]
+
+
+_B4 = TSeq(TInt(0, 255))
+
+
+@contract("rig/machine_control/bmp_controller.py::BMPController.read_fpga_reg")
+class ReadFpgaReg:
+    """one 4-byte link read, sent to exactly the (cabinet, frame, board) resolved for the call, for the FPGA named, at the address
+    rounded DOWN to a word; the value is the little-endian reading of the reply's four bytes"""
+    properties = ("C18",)
+    params = dict(self=TRec("BMPController"), fpga_num=TInt(0, 2), addr=TInt(0, 2 ** 32 - 1), cabinet=TInt(0, 255), frame=TInt(0, 255), board=TInt(0, 23),
+                  g_data=_B4)
+    externals = {"BMPController._send_scp": _bmp_send_all}
+    options = {"decorators": {"use_contextual_arguments": "identity"}, "int_class": "rig/machine_control/consts.py::SCPCommands"}
+    assumptions = ["BMPController._send_scp (contract BMPSendScp) is recorded; its reply carries the ghost bytes g_data"]
+
+    def requires(g_data):
+        return seq_len(g_data) == 4
+
+    def native(x):
+        raise __import__("pyvc.replay", fromlist=["OutsideHarness"]).OutsideHarness()
+
+    def ensures_word_read_from_the_fpga_of_the_board_named(fpga_num, addr, cabinet, frame, board, g_data, result, _trace):
+        return (len(_trace) == 1 and _trace[0][:5] == ("bmp_command", cabinet, frame, board, 17)
+                and _trace[0][5] == (("arg1", addr - addr % 4), ("arg2", 4), ("arg3", fpga_num), ("expected_args", 0))
+                and result == select(g_data, 0) + 256 * select(g_data, 1) + 65536 * select(g_data, 2) + 16777216 * select(g_data, 3))
+
+
+@contract("rig/machine_control/bmp_controller.py::BMPController.write_fpga_reg")
+class WriteFpgaReg:
+    """one 4-byte link write to exactly the board resolved for the call, for the FPGA named, at the address rounded down to a word,
+    carrying exactly the little-endian bytes of the value"""
+    properties = ("C18",)
+    params = dict(self=TRec("BMPController"), fpga_num=TInt(0, 2), addr=TInt(0, 2 ** 32 - 1), value=TInt(0, 2 ** 32 - 1), cabinet=TInt(0, 255),
+                  frame=TInt(0, 255), board=TInt(0, 23), g_data=_B4)
+    externals = {"BMPController._send_scp": _bmp_send_all}
+    options = {"decorators": {"use_contextual_arguments": "identity"}, "int_class": "rig/machine_control/consts.py::SCPCommands"}
+    assumptions = ["BMPController._send_scp (contract BMPSendScp) is recorded"]
+
+    def native(x):
+        raise __import__("pyvc.replay", fromlist=["OutsideHarness"]).OutsideHarness()
+
+    def ensures_word_written_to_the_fpga_of_the_board_named(fpga_num, addr, value, cabinet, frame, board, _trace):
+        kw = _trace[0][5]
+        return (len(_trace) == 1 and _trace[0][:5] == ("bmp_command", cabinet, frame, board, 18)
+                and kw[0] == ("arg1", addr - addr % 4) and kw[1] == ("arg2", 4) and kw[2] == ("arg3", fpga_num)
+                and kw[3][0] == "data" and seq_len(kw[3][1]) == 4
+                and select(kw[3][1], 0) + 256 * select(kw[3][1], 1) + 65536 * select(kw[3][1], 2) + 16777216 * select(kw[3][1], 3) == value
+                and kw[4] == ("expected_args", 0))
